@@ -100,7 +100,7 @@ def pdb(p):
 
 # ------------------------------------------------------------------ events
 PAIRING_NAMES = ("A", "B", "C", "D", "E", "F")
-OPS = ("plain", "populate", "update", "restart", "setkey", "evt_begin", "evt_end")
+OPS = ("plain", "populate", "update", "restart", "setkey", "evt_begin", "evt_end", "poll_begin", "poll_end")
 MAX_GSN = 65535
 
 
@@ -134,7 +134,7 @@ def ev_raw(to, payload, label, **mods):
 
 def realise(ev):
     """-> (apple manufacturer data bytes or None, sealed-intact?)"""
-    if ev["k"] in ("noapple", "populate", "update", "restart", "setkey", "evt_begin", "evt_end"):
+    if ev["k"] == "noapple" or ev["k"] in OPS and ev["k"] != "plain":
         return None, False
     if ev["k"] == "plain":
         # type 0x06 | stl | sf | id(6) | acid(2) | gsn(2) | cn | cv | setup hash(4)
@@ -184,6 +184,10 @@ def symbolic(world, ev, plain_sns, curkeys=None):
         return "X"
     if ev["k"] == "setkey":
         return "K:%s:%d" % (ev["to"], KEYNUM[ev["key"]])
+    if ev["k"] == "poll_begin":
+        return "LB:%s" % ev["to"]
+    if ev["k"] == "poll_end":
+        return "LE:%s:%s" % (ev["to"], "fail" if ev["sn"] is None else ev["sn"])
     if ev["k"] == "evt_begin":
         return "EB:%s:%d" % (ev["to"], ev["g"])
     if ev["k"] == "evt_end":
@@ -222,7 +226,7 @@ def model_line(world, events):
                                              1 if p["db"] == "1" else 0))
     plain_sns = {}
     for e in events:
-        if e["k"] in ("plain", "populate", "update"):
+        if e["k"] in ("plain", "populate", "update") or (e["k"] == "poll_end" and e["sn"] is not None):
             plain_sns.setdefault(e["to"], []).append(e["sn"])
         if e["k"] == "evt_begin":
             plain_sns.setdefault(e["to"], []).extend([e["g"], 1])
@@ -364,6 +368,40 @@ async def _impl_event(ev, world, pairings, pending):
         del pr._get_characteristics_while_connected, pr._get_all_protocol_params, pr._async_request_under_lock
 
 
+async def _impl_poll(ev, world, pairings, pending):
+    """the disconnected-events poll (_async_process_disconnected_events, the REAL method) as a suspendable operation:
+    poll_begin starts it as a task on a pairing that has been connected before; the connect-and-read part
+    (_process_disconnected_events_with_retry) hangs until poll_end and then returns the accessory's number or fails"""
+    import asyncio
+    from aiohomekit.controller.ble.structs import ProtocolParams
+    from aiohomekit.exceptions import AccessoryDisconnectedError
+    idx = next(i for i, p in enumerate(world) if p["id"] == ev["to"])
+    pr = pairings[idx]
+    if ev["k"] == "poll_begin":
+        release = asyncio.Event()
+        box = {}
+
+        async def poll():
+            await release.wait()
+            if box["sn"] is None:
+                raise AccessoryDisconnectedError("could not connect")
+            return ProtocolParams(state_number=box["sn"], config_number=1, advertising_id=bytes.fromhex(ev["to"]),
+                                  broadcast_key=None)
+        pr._tried_to_connect_once = True
+        pr._process_disconnected_events_with_retry = poll
+        task = asyncio.ensure_future(pr._async_process_disconnected_events())
+        await _settle()
+        pending["poll:" + ev["to"]] = (release, box, task)
+    else:
+        release, box, task = pending.pop("poll:" + ev["to"])
+        box["sn"] = ev["sn"]
+        release.set()
+        await asyncio.wait_for(task, 5)
+        await _settle()
+        pr._tried_to_connect_once = False
+        del pr._process_disconnected_events_with_retry
+
+
 async def _impl_op(ev, world, pairings):
     """the other writers of the state number, driven through the real methods with only the GATT round trips faked"""
     from unittest.mock import AsyncMock
@@ -434,6 +472,8 @@ async def _impl_async(world, events):
                 await _impl_op(ev, world, pairings)
             elif ev["k"] in ("evt_begin", "evt_end"):
                 await _impl_event(ev, world, pairings, pending)
+            elif ev["k"] in ("poll_begin", "poll_end"):
+                await _impl_poll(ev, world, pairings, pending)
             else:
                 data, _ = realise(ev)
                 mfr = {} if data is None else {76: data}
@@ -455,8 +495,10 @@ async def _impl_async(world, events):
         fbn = fallbacks[0] - fb0
         fbbit = 1 if (fbn > 0 and ev["k"] not in OPS) else 0      # ops: the poll a regular advertisement triggers is not C18's
         steps.append(("%s|%s|%s|%d" % (exc, "+".join(cl) or "-", sns, fbbit), fbn))
-    for release, _client in pending.values():
-        release.set()
+    for item in pending.values():
+        if isinstance(item[1], dict):
+            item[1]["sn"] = None
+        item[0].set()
     await _settle()
     for pr in pairings:
         pr._shutdown = True
@@ -549,6 +591,8 @@ def oracle_history(world, events, steps, check_monotone=True):
                     sns[i] = psns[i] = ev["sn"]
                 elif k == "setkey" and p["db"] == "1":       # generation needs the service-signature characteristic
                     keys[i] = ev["key"]
+                elif k == "poll_end" and ev["sn"] is not None and sns[i] is not None:
+                    sns[i] = psns[i] = ev["sn"]          # a failed poll (sn None) writes nothing
                 elif k == "evt_begin" and sns[i] is not None:
                     sns[i] = psns[i] = ev["g"] if rolls(ev["g"]) else ev["g"] + 1
                 elif k == "evt_end" and rolls(ev["g"]) and ev["req"] != "fail" and sns[i] is not None:
@@ -963,6 +1007,40 @@ def gen_events(tier):
     return hs
 
 
+def ev_poll(to, sn):
+    """(begin, end) of a disconnected-events poll; sn = the number the accessory reports, None = the poll fails"""
+    return (dict(k="poll_begin", to=IDS[to], label="poll-begin"),
+            dict(k="poll_end", to=IDS[to], sn=sn, label="poll-end:" + ("fail" if sn is None else "ok")))
+
+
+def gen_polls(tier):
+    """advertisements delivered while the poll hangs in its connection attempt; the poll then fails or succeeds.
+    Nothing accepted in the meantime may be un-accepted (bcast_replay_after_failed_poll)."""
+    hs = []
+    for s in ([20, 65400] if tier == "quick" else [1, 20, 255, 4095, 65400, 65500]):
+        w = mk_world(s, 300)
+
+        def g(n, lab="genuine"):
+            return genuine("A", n, label=lab)
+        junk = ev_raw("A", bytes(range(16)), "junk")          # anyone can send this; it triggers the poll fallback
+        for k in (1, 2, 50, 99):
+            b, e = ev_poll("A", None)
+            hs.append((w, [g(s + 1), junk, b, junk, g(s + 1 + k), e, g(s + 1 + k, "replay-current"), g(s + 1, "replay-older"),
+                           g(s + 2 + k)], "poll:fail"))
+        b, e = ev_poll("A", None)
+        hs.append((w, [genuine("A", s + 1, 999, label="unknown-iid"), b, g(s + 2), g(s + 3), e, g(s + 2, "replay-older"),
+                       g(s + 3, "replay-current"), RESTART, g(s + 3, "after-restart")], "poll:fail-unknown-iid-trigger"))
+        for rep_sn in (s + 5, s + 1, s + 2):
+            b, e = ev_poll("A", rep_sn)
+            hs.append((w, [b, g(s + 1), g(s + 2), e, g(s + 1, "replay-older"), g(s + 2, "replay-older"), g(s + 3, "older-than-learned"),
+                           g(s + 6)], "poll:ok"))
+        b, e = ev_poll("A", None)
+        b2, e2 = ev_poll("B", 305)
+        hs.append((w, [b, b2, g(s + 1), genuine("B", 301), e2, e, g(s + 1, "replay-current"), genuine("B", 301, label="replay-older"),
+                       genuine("B", 306)], "poll:two-pairings"))
+    return hs
+
+
 def gen_rollover_obs():
     """observation: a roll-over of the number WITHOUT a new key re-admits the previous epoch"""
     g = genuine("A", 2)
@@ -1118,6 +1196,10 @@ def _xc_term(line):
             evs.append("[ORestart]")
         elif f[0] == "K":
             evs.append("[OSetKey %s %d%%N]" % (_xc_bytes(f[1]), int(f[2])))
+        elif f[0] == "LB":
+            evs.append("poll_begin %s" % _xc_bytes(f[1]))
+        elif f[0] == "LE":
+            evs.append("poll_end %s %s" % (_xc_bytes(f[1]), "PollFail" if f[2] == "fail" else "(PollOk %d%%N)" % int(f[2])))
         elif f[0] == "EB":
             evs.append("event_begin %s %d%%N" % (_xc_bytes(f[1]), int(f[2])))
         elif f[0] == "EE":
@@ -1173,7 +1255,7 @@ def xc_sample(hist_pairs, val_pairs, nhist=18, nval=10):
     for i, l, a in hp:
         feats = {"o:" + t.split("/")[0] for t in a.split(" ") if "/" in t}
         feats |= {"b:" + t.split(":")[2][0] for t in l.split(" ") if t.startswith("A:")}
-        feats |= {"e:" + t.split(":")[0] for t in l.split(" ") if t[0] in "ROUXKE"}
+        feats |= {"e:" + t.split(":")[0] for t in l.split(" ") if t[0] in "ROUXKEL"}
         if feats - seen and len(picked) < nhist - 6:
             seen |= feats
             picked.append(i)
@@ -1238,7 +1320,7 @@ def run(ctx):
         hs = [(rp["world"], rp["events"], "replay")]
     else:
         hs = gen_core(tier) + gen_values(tier) + gen_flips(tier, rng(seed, "c18flip")) + gen_short(tier, rng(seed, "c18short")) \
-            + gen_random(tier, rng(seed, "c18rand")) + gen_ops(tier) + gen_keys(tier) + gen_events(tier)
+            + gen_random(tier, rng(seed, "c18rand")) + gen_ops(tier) + gen_keys(tier) + gen_events(tier) + gen_polls(tier)
     plain = [] if ctx.get("replay") else gen_plain() + gen_rollover_obs()
     allh = hs + plain
     lines, model, impl = run_histories(drv, allh)
